@@ -2,7 +2,7 @@
 HOOK_COMMITS = []
 ENGINES = [
  {"name": "TV", "path": "engine/tv", "serves_properties": ["C01","C02","C03","C04","C05","C06","C07","C08","C09","C10","C11","C12","C13","C14","C15"], "kind_free_text": "real transformer on formulas with free leaves; independent FNode->z3 translation; z3 validity query per instance (all interpretations)"},
- {"name": "XH", "path": "engine/xh", "serves_properties": ["C02","C03","C04","C05","C08","C14","C15","C16","C17","C18","C19","C20"], "kind_free_text": "CrossHair symbolic execution of the real pySMT functions with symbolic payloads/selectors (z3 per path)"},
+ {"name": "XH", "path": "engine/xh", "serves_properties": ["C01","C02","C03","C04","C05","C06","C08","C14","C15","C16","C17","C18","C19","C20"], "kind_free_text": "CrossHair symbolic execution of the real pySMT functions with symbolic payloads/selectors (z3 per path)"},
  {"name": "AZ", "path": "engine/az", "serves_properties": ["C07","C13"], "kind_free_text": "Python-AST -> z3 encodings with ITE merging, regenerated from /repo source each run"},
 ]
 NOTES = "Solver-based checking of the real code; see DESIGN.md. Exit codes: 0 held, 1 reproduced unlisted violation, 2 harness error."
@@ -18,15 +18,15 @@ CHECKS = {
          "note": "trusts CrossHair+z3, SymKeyDict dict model, bit-op plugin, engine/ref/refeval.py; widths/lengths bounded as listed in evidence"},
  "C05": {"level": "translation_validation", "engine": "TV+XH",
          "technique": "real substituters vs z3.substitute/substitute_funs on the independent translation (z3 validity); CrossHair over key masks vs reference MGS/MSS",
-         "text": "substitution lemma decided by z3 for all interpretations on ~1.4e5 (formula, map, strategy) instances; term-keyed replacement order compared with an independent recursive definition over all 2^6 key masks",
+         "text": "substitution lemma decided by z3 for all interpretations on ~1.4e5 (formula, map, strategy) instances; term-keyed replacement order compared with an independent recursive definition over all 2^6 key masks; the environment's shared substituter right after a failing substitution must return the same object",
          "note": "trusts z3.substitute as capture-free substitution; maps <= 3 keys, replacement depth 1"},
- "C06": {"level": "translation_validation", "engine": "TV",
-         "technique": "z3 validity of derived constructor == directly written z3 term for all argument values",
-         "text": "every derived constructor / infix form at the listed arities and widths proven equal to its named function for ALL argument values (exact for Int/Real/BV)",
+ "C06": {"level": "translation_validation", "engine": "TV+XH",
+         "technique": "z3 validity of derived constructor == directly written z3 term for all argument values; CrossHair on the infix/method operators with a symbolic Python literal operand vs plain integer arithmetic",
+         "text": "every derived constructor / infix form at the listed arities and widths proven equal to its named function for ALL argument values (exact for Int/Real/BV); literal operands symbolic (BV: whole range incl. literals the width cannot represent, which must be rejected; Int unbounded)",
          "note": "trusts z3's SMod/AtMost/PbEq/Rotate as the named functions"},
  "C07": {"level": "translation_validation", "engine": "TV+AZ",
          "technique": "exported text read by z3's own SMT-LIB front end and proven equal to the independent translation (z3 validity); regex-inclusion query for quoting",
-         "text": "tree and DAG export of ~7e3 formulas accepted by an independent reader with no pre-declared symbols and equal in meaning for all interpretations; unquoted names proven to be SMT-LIB simple symbols for all lengths",
+         "text": "tree and DAG export of ~7e3 formulas accepted by an independent reader with no pre-declared symbols and equal in meaning for all interpretations; unquoted names proven to be SMT-LIB simple symbols for all lengths; multi-assert scripts sharing sub-terms across commands; sort declarations (arity 0-3, nested) declared once before use",
          "note": "z3's reader is more permissive than the standard (Int/Real coercion); pow / non-ASCII strings not readable by it"},
  "C09": {"level": "translation_validation", "engine": "TV",
          "technique": "print->parse identity on the export grammar; z3 validity for constant arrays and HR regrouping",
@@ -34,18 +34,18 @@ CHECKS = {
          "note": "identity clauses are exhaustive runs over the bounded grammar, the solver decides the equivalence clauses only"},
  "C10": {"level": "translation_validation", "engine": "TV",
          "technique": "z3 validity of T(f)==f for nnf/prenex/aig/TimesDistributor/partitions/propagate_toplevel/QE over Boolean skeleton grammars incl. nested quantifiers",
-         "text": "equivalence under all interpretations (Bool/BV quantifiers exact) plus advertised-shape recognisers, ~8e4 instances quick / 1.3e6 thorough",
+         "text": "equivalence under all interpretations (Bool/BV quantifiers exact) plus advertised-shape recognisers, ~1.1e5 instances quick / 1.7e6 thorough, incl. families served by ONE re-used rewriter object",
          "note": "Int quantifier instances rely on z3's quantifier reasoning (unknown counted)"},
  "C11": {"level": "translation_validation", "engine": "TV",
          "technique": "quantified z3 validity queries: f => exists aux. cnf(f), cnf(f) => f; Ackermann: extension, abstraction and functional-consistency queries",
-         "text": "model-by-model equisatisfiability decided by z3 with auxiliary symbols quantified, form recognisers, incl. re-used Ackermannizer instances",
+         "text": "model-by-model equisatisfiability decided by z3 with auxiliary symbols quantified, form recognisers, incl. re-used CNFizer / PolarityCNFizer / Ackermannizer instances",
          "note": "theory atoms opaque; <= 6 applications per symbol"},
 }
 
 CHECKS.update({
  "C08": {"level": "translation_validation", "engine": "TV+XH",
          "technique": "differential reading against z3's SMT-LIB front end with z3 validity per assertion; CrossHair on the tokenizer with symbolic input strings vs a reference lexer",
-         "text": "each accepted script's assertions proven equal to an independent reader's under all interpretations; malformed variants must be rejected; constructs accepted when the allow-list was frozen must stay accepted; tokenizer explored over all strings up to the length bound",
+         "text": "each accepted script's assertions proven equal to an independent reader's under all interpretations; malformed variants must be rejected; constructs accepted when the allow-list was frozen must stay accepted; every script also read by a parser object that has read another script before (same object or same rejection); tokenizer explored over all strings up to the length bound",
          "note": "z3's reader stands in for the standard (where it rejects nothing is concluded); allow-list props/c08_accepted.json"},
  "C12": {"level": "translation_validation", "engine": "TV",
          "technique": "analyses vs independent recursive definitions; z3 validity for 'value depends only on reported free symbols' and 'truth value is a function of the reported atoms'",
@@ -67,7 +67,7 @@ CHECKS.update({
 CHECKS.update({
  "C04": {"level": "model_checking", "engine": "XH+TV",
          "technique": "CrossHair with symbolic constant values / payload integers over a dict model of the hash-cons tables; structural-key comparison over construction routes and cross-environment copies",
-         "text": "identity <=> value equality for Int (unbounded), BV (widths 1-4/6, all spellings), rationals (box), strings; payload-carrying operators in both construction orders; every grammar formula through blueprint/constructor routes; normalize from two source environments",
+         "text": "identity <=> value equality for Int (unbounded), BV (widths 1-4/6, all spellings), rationals (box), strings; payload-carrying operators in both construction orders; every grammar formula through blueprint/constructor routes; normalize from two source environments (incl. targets owning a clashing name); 18 iterable-taking constructors x 7 container kinds x 0-3 items give the object of the list call",
          "note": "SymKeyDict models Python's dict for value-keyed tables (assumes equal keys hash equal, checked for PySMTType); float spellings on a concrete set only"},
 })
 
@@ -81,7 +81,7 @@ CHECKS.update({
 CHECKS.update({
  "C14": {"level": "model_checking", "engine": "XH+TV",
          "technique": "CrossHair inductive step over the persistent memo state: symbolic subset of earlier calls, one call under test, result/identity/memo-entry comparison with fresh environments",
-         "text": "for 23 calls under test, all 2^10 subsets of a pool of earlier calls on formulas sharing sub-DAGs are explored (Confirmed over all paths); the post-condition re-establishes 'every memo entry equals its fresh value', so one step covers histories of any length over the universe; constant-cache spellings and foreign-environment formulas enumerated",
+         "text": "for 25 calls under test, all 2^10 subsets of a pool of earlier calls on formulas sharing sub-DAGs are explored (Confirmed over all paths); the post-condition re-establishes 'every memo entry equals its fresh value', so one step covers histories of any length over the universe; constant-cache spellings and foreign-environment formulas enumerated",
          "note": "universe of 10 formulas; pool and calls listed in props/c14_xh.py"},
 })
 
@@ -95,27 +95,27 @@ CHECKS.update({
 CHECKS.update({
  "C18": {"level": "model_checking", "engine": "XH",
          "technique": "CrossHair over the constants of a finite-domain constraint system and the oracle's model choice: the real generic optimisation loops run over a brute-force solver and are compared with optima computed by reference enumeration; interval kernel with fully symbolic bounds",
-         "text": "per (goal kind, strategy, mixin, mode) every value of lo/hi/e/ylo/weights and both oracle behaviours explored (Confirmed over all paths): true optimum, lexicographic optimum, boxed optima, exact Pareto front, None iff unsat, assertion stack list and depth restored",
+         "text": "per (goal kind, strategy, mixin, mode) every value of lo/hi/e/ylo/weights and both oracle behaviours explored (Confirmed over all paths): true optimum, lexicographic optimum, boxed optima, exact Pareto front, None iff unsat, assertion stack list and depth restored; a MaxSMT goal object extended between two optimisations, cost computed from the check's own clause list",
          "note": "domains BV(2) (quick) / BV(3) (thorough) and Int in [-2,2]; oracle = exhaustive enumerator evaluated with the reference evaluator"},
 })
 
 CHECKS.update({
  "C17": {"level": "model_checking", "engine": "XH",
          "technique": "CrossHair over symbolic call codes: the real SmtLibSolver drives a strict in-memory reference solver (scoped declarations, z3 for check-sat/get-value) substituted for the subprocess",
-         "text": "all legal call histories up to the bound: command stream legal per SMT-LIB scoping, no command sent while a reply is unread, no API error, verdicts equal the truth of the intended live assertions, models complete and satisfying, shortcuts truthful",
+         "text": "all legal call histories up to the bound: command stream legal per SMT-LIB scoping, no command sent while a reply is unread, no API error, verdicts equal the truth of the intended live assertions (incl. unsatisfiable stacks and queries that simplify to TRUE), models complete and satisfying, shortcuts truthful",
          "note": "synchronous stand-in: real pipes, buffering and process death are outside; formulas over Bool/BV(2)"},
 })
 
 CHECKS.update({
  "C19": {"level": "fault_enumeration", "engine": "XH",
          "technique": "CrossHair over a symbolic arrival schedule and fault set: the real Portfolio parent-side logic runs over in-process fakes of multiprocessing Process/Queue/Pipe; blocking reads with nothing left to deliver are reported as hangs",
-         "text": "every outcome vector {verdict, unknown, crash, silent death}^members x arrival order x late-loser flag for two consecutive solves in solve/get_model/push/add/solve/pop cycles and one-shot queries (Confirmed over all paths)",
+         "text": "every outcome vector {verdict, unknown, crash, silent death}^members x arrival order x late-loser flag x slow-member flag (polls that time out while members are still running) for two consecutive solves in solve/get_model/push/add/solve/pop cycles and one-shot queries (Confirmed over all paths)",
          "note": "parent side only; OS-level races between real processes are outside any symbolic engine available here (stated, not worked around)"},
 })
 
 CHECKS.update({
  "C20": {"level": "model_checking", "engine": "XH",
          "technique": "CrossHair over a symbolic nesting depth (2..40), sharing flag and DAG child indices: walker work-stack pops and node constructions counted from outside, interpreter recursion limit lowered around each service",
-         "text": "bounded form only: per (operator family, service) work <= 24*|DAG|+60 steps for every depth and sharing pattern in the bound (tree size up to 2^40), and no more stack at depth d than at depth 2; the unbounded clauses (depth >= 20000, asymptotic linearity) are not claimed",
+         "text": "bounded form only: per (operator family, service) work <= 24*|DAG|+60 steps for every depth and sharing pattern in the bound (tree size up to 2^40), and no more stack at depth d than at depth 2; 58 operator shapes nested in themselves and in each other with full sharing: DAG-printer text <= 120*|DAG|+400 characters, parse(print(f)) is f, linear parser work; the unbounded clauses (depth >= 20000, asymptotic linearity) are not claimed",
          "note": "the literal 'depth >= 20000 under the default recursion limit' is a bound-free claim outside solver-based bounded checking (stated in DESIGN.md section 4)"},
 })
